@@ -270,7 +270,7 @@ def check(ctx):
     looked = 0
     for e in mem:
         for a_ in e.args[1:3]:
-            m_ = re.match(r'^(\w+)\[(.*)\]$', a_)
+            m_ = re.match(r'^(\w+)\.get\((.*)\)(?:\[\d+\])?$', a_) or re.match(r'^(\w+)\[(.*)\]$', a_)
             if m_ and m_.group(1) in keyed:
                 looked += 1
                 r5.check(m_.group(2) == e.args[0] and re.search(r'\.name$', keyed[m_.group(1)]), '%s looked up under the new member name' % m_.group(1), 'giscanner/gdumpparser.py', e.line,
@@ -278,6 +278,9 @@ def check(ctx):
                          'lose their exact scanned value and get the 32-bit signed value of the runtime dump' % (keyed[m_.group(1)], m_.group(2)[:60], e.args[0][:60]), detail=[a_, e.args[0]])
         for at in gsa.atoms(e.cond):
             m_ = re.match(r'^(.*) in (\w+)$', at)
+            mg_ = re.match(r'^(\w+)\.get\((.*)\) is None$', at)
+            if mg_ and mg_.group(1) in keyed:
+                m_ = re.match(r'^(.*) in (\w+)$', '%s in %s' % (mg_.group(2), mg_.group(1)))
             if m_ and m_.group(2) in keyed:
                 r5.check(m_.group(1) == e.args[0], 'membership in %s tested with the new member name' % m_.group(2), 'giscanner/gdumpparser.py', e.line,
                          'the scanned values are keyed by %s but membership is tested with %s while the member is called %s' % (keyed[m_.group(2)], m_.group(1)[:60], e.args[0][:60]))
